@@ -31,7 +31,7 @@ GUARD_PROP = {
     "NothingOfARunAfterItsEnd": "C07", "JobSpawnedOnce": "C07", "JobEndedAtMostOnceAfterSpawn": "C07",
     "TaskOpensWithSpawnOnly": "C17", "FrameAfterTerminal": "C17", "RunningAtMostOnce": "C17", "CancelRecordedFirst": "C17",
     "CacheNeverAheadOfTruth": "C05", "RecordedBeforePublished": "C06",
-    "SnapshotHasEveryLoggedFrame": "C03",
+    "SnapshotHasEveryLoggedFrame": "C03", "CheckpointNamesItsCutMessage": "C09",
     "NoOverlap": "C11", "SideEffectsAfterTheToolFinished": "C11",
 }
 
@@ -107,8 +107,10 @@ def frame_event(fr):
             "st": str(fr.get("status") or "") if t == "tool_task_status" else "",
             "tid": str(fr.get("tool_id") or "") if t == "continuity_tool_side_effects" else "",
             "pt": str(fr.get("parent_thread_id") or fr.get("from_thread_id") or "") if short in ("branched", "handoff") else "",
-            "ps": int(fr.get("parent_seq") if fr.get("parent_seq") is not None else fr.get("from_seq") or 0) if short in ("branched", "handoff") else 0,
-            "pm": str(fr.get("parent_message_id") or fr.get("from_message_id") or "") if short in ("branched", "handoff") else ""}
+            "ps": (int(fr.get("parent_seq") if fr.get("parent_seq") is not None else fr.get("from_seq") or 0) if short in ("branched", "handoff")
+                   else int(fr.get("to_seq") or 0) if short == "ckpt" else 0),
+            "pm": (str(fr.get("parent_message_id") or fr.get("from_message_id") or "") if short in ("branched", "handoff")
+                   else str(fr.get("to_message_id") or "") if short == "ckpt" else "")}
 
 
 def project(path):
@@ -280,7 +282,9 @@ def histories_flags(wd, results, name="system"):
         sowner.append(res["id"])
         for o in res["order"]:
             sev.append(frame_event({"stream_kind": o.get("kind") or "session", "type": o["type"], "stream_id": o["sid"], "seq": o["seq"],
-                                    "run_session_id": o.get("r"), "message_id": o.get("m"), "id": o.get("m"), "job_id": o.get("j"), "status": o.get("st")}))
+                                    "run_session_id": o.get("r"), "message_id": o.get("m"), "id": o.get("m"), "job_id": o.get("j"), "status": o.get("st"),
+                                    "to_seq": o.get("to_seq"), "to_message_id": o.get("to_message_id"), "parent_thread_id": o.get("parent_thread_id"),
+                                    "parent_seq": o.get("parent_seq"), "parent_message_id": o.get("parent_message_id"), "tool_id": o.get("tool_id")}))
             sowner.append(res["id"])
     p = os.path.join(wd, name + ".ndjson")
     write_ndjson(p, sev)
